@@ -30,6 +30,8 @@ type Store struct {
 	Writes   int  // number of writes attempted so far
 	FailFrom int  // -1: never fail
 	Log      []Op // applied writes
+	// Overwritten lists the keys whose stored bytes were replaced by different bytes.
+	Overwritten []string
 	// Perm, if non-nil, maps the sorted position of a query result to its
 	// position in the returned order (called with n = number of results).
 	Perm func(n int) []int
@@ -116,6 +118,9 @@ func (s *Store) Put(_ context.Context, key ds.Key, value []byte) error {
 	defer s.mu.Unlock()
 	if err := s.write(); err != nil {
 		return err
+	}
+	if old, ok := s.m[key.String()]; ok && string(old) != string(value) {
+		s.Overwritten = append(s.Overwritten, key.String())
 	}
 	s.m[key.String()] = append([]byte(nil), value...)
 	s.Log = append(s.Log, Op{"put", key.String()})
